@@ -22,6 +22,8 @@ from . import alpha, inline
 def _shape(sig):
     c = collections.Counter()
     for name, ctxs in sig.items():
+        if name.startswith("__"):
+            continue
         for k, v in (ctxs.items() if isinstance(ctxs, dict) else ctxs.items()):
             c[k.replace("@", "_")] += v
     return c
